@@ -262,6 +262,15 @@ static void worker (long start, void *user)
     for (i = 0; i < n; i++) if (!strcmp (progs[i]->name, v_calls[k].name)) break;
     if (i == n) { v_out ("{\"t\":\"viol\",\"key\":\"%s|harness|missing-program\",\"what\":\"no parsed program named %s\",\"replay\":{}}", prop, v_calls[k].name); continue; }
     orc_program_compile (progs[i]);	/* emulation needs the compiled program record */
+    if (vr_float_mode == 2) {
+      /* which NaN (sign, payload) a float operation yields for NaN operands is the C compiler's choice; in a chain that
+       * NaN feeds further instructions (convfl maps it by its sign, swapq moves the sign bit into data), so programs of
+       * more than one instruction with float operations run on finite inputs - NaNs then only arise as the default NaN
+       * of an invalid operation, which is the same in every compilation */
+      int q, isf = 0;
+      for (q = 0; q < progs[i]->n_insns; q++) if (op_is_float (progs[i]->insns[q].opcode)) isf = 1;
+      v_finite_only = isf && progs[i]->n_insns > 1;
+    }
     if (!progs[i]->orccode) { st_skipped++; continue; }
     explore (progs[i], &v_calls[k], k);
   }
